@@ -86,6 +86,13 @@ def outline_monitor(ctx, info, res, where="post"):
             exp, trunc = expected_actives(info, name, snaps)
             if trunc:
                 ctx.hit("truncated_outline_checked")
+                # another conditional aux further down the same outline is running too (nested suspension)
+                full = info.S[name].outline(sn["active"])
+                for fname in full[full.index(trunc[0]) + 1:]:
+                    for a in info.cond.get((name, fname), []):
+                        asn = snaps.get(a)
+                        if asn and not asn["done"] and asn["actives"] and asn["main"] == [name, fname]:
+                            ctx.hit("nested_running_conditional_auxes")
             else:
                 ctx.hit("full_outline_checked")
             if len(exp) >= 3:
